@@ -26,8 +26,11 @@ ALLOWED = ('InvalidSyntax', 'UnsupportedCriticalPayload')
 
 def make_crypto(rng, strong=True):
     T = r_msg.Transform
-    if strong:
+    if strong is True:
         enc, integ, prf, ek, ak, integ_id = (T(1, 12, 256), T(3, 12), T(2, 5), 32, 32, 12)
+    elif strong == 'sha512':
+        # the suite whose checksum (32 octets) is longer than a cipher block
+        enc, integ, prf, ek, ak, integ_id = (T(1, 12, 128), T(3, 14), T(2, 7), 16, 64, 14)
     else:
         enc, integ, prf, ek, ak, integ_id = (T(1, 12, 128), T(3, 2), T(2, 2), 16, 20, 2)
     sk_e, sk_a, sk_p = gen.rb(rng, ek), gen.rb(rng, ak), gen.rb(rng, 32)
@@ -340,6 +343,7 @@ def run(ck):
         P.one('random', data, header_only=bool(i % 5 == 0))
     crypto_s, keys_s = make_crypto(rng, True)
     crypto_w, keys_w = make_crypto(rng, False)
+    crypto_5, keys_5 = make_crypto(rng, 'sha512')
     bases = gen.typical_messages(ck.rng('bases'))
     for k in range(4 * scale):
         for name, m in list(gen.typical_messages(ck.rng('bases', k)).items()):
@@ -379,7 +383,8 @@ def run(ck):
         inner_raw = codec.enc_chain(m['payloads'])
         inner_first = m['payloads'][0]['type'] if m['payloads'] else 0
         hdr = dict(m, exch=m['exch'] if m['exch'] != 34 else 36)
-        for crypto, keys in ((crypto_s, keys_s), (crypto_w, keys_w)):
+        for crypto, keys in ((crypto_s, keys_s), (crypto_w, keys_w), (crypto_5, keys_5)):
+            ck.seen('sealed.integrity_algorithms', keys[0])
             good = seal(hdr, inner_raw, inner_first, keys, rng)
             n += 1
             if ck.mine(n):
@@ -476,6 +481,7 @@ def verdict(ck):
     ck.floor('distinct long proposals parsed by one process', c['longlived.parsed'], 1500)
     ck.floor('well-formed messages in legal but unusual shapes', c['unusual.messages'], 1200)
     ck.floor('inputs with text hostile to pattern matching', c['hostile_text.inputs'], 500)
+    ck.floor('integrity algorithms (checksum lengths 12, 16, 32) under which the protected-message grid ran', len(ck.sets['sealed.integrity_algorithms']), 3)
     ck.floor('extreme shapes timed at 16 KB and 64 KB without the line monitor', c['growth.shapes_timed'], 15)
     ck.floor('kind x length pairs inside substructures (selector, proposal, transform, attribute)', c['grid.substructure_pairs'], 2000)
     ck.floor('near-miss texts (long accepted run, then a refused octet) in every identity type and vendor IDs', c['hostile_text.near_misses'], 700)
